@@ -801,15 +801,13 @@ fn run_case(line: &str, drv: &mut Driver, rep: &mut Report) {
         .configure(regex_automata::meta::Regex::config().utf8_empty(false))
         .build(re.as_str())
         .ok();
-    let has_crlf_aware_look = c.pats.iter().any(|p| p.contains("(?R"));
-    let has_unicode_word_look = c.word || c.pats.iter().any(|p| p.contains("\\b") || p.contains("\\B"));
     let mut crosses_terminator = false;
     let mut ctx_dependent = false;
     let mut line_classes: Vec<&'static str> = vec![]; // one entry per deviating line ("" = no mechanism found)
     let mut dev_notes: Vec<String> = vec![];
     {
         let mut off = 0usize;
-        for (idx, l) in lines.iter().enumerate() {
+        for l in lines.iter() {
             let cont = content(l, cfg.lt);
             let terminated = l.last() == Some(&cfg.lt.byte());
             let line_last = off + l.len() - if terminated { 1 } else { 0 };
@@ -857,37 +855,14 @@ fn run_case(line: &str, drv: &mut Driver, rep: &mut Report) {
                     }
                     meta.is_some() && cr_free == alone
                 };
-                // --- F1 `fastpath-matcher-not-linesafe-crlf`. Mechanism: fast path under --crlf, the line ends in
-                // `\r\n`, the match the fast path accepts is the EMPTY match at the position between that `\r` and
-                // `\n`, the content itself has no match (matcher on the slice and reference agree on that), and the
-                // searcher reported the line because of it.
-                let f1 = cfg.lt == Lt::Crlf
-                    && path == "fast"
-                    && l.ends_with(b"\r\n")
-                    && mm.as_ref().map_or(false, |mm| mm.start() == mm.end() && mm.start() == off + l.len() - 1)
-                    && !alone
-                    && !ref_full
-                    && imp_bit == !cfg.inv;
-                // --- F2 `fastpath-matcher-not-linesafe`, CRLF-aware look under an LF terminator. Mechanism: fast path,
-                // the pattern has a `(?R…)` look, the content ends in `\r` (so `(?R)$` sits between `\r` and `\n` in
-                // the buffer but at the end of the slice), the matcher's verdict differs between buffer context and
-                // slice, the property agrees with the slice, the searcher followed the buffer verdict.
-                let follows_ctx = in_ctx != alone && ref_full == alone && imp_bit == (in_ctx != cfg.inv);
-                let f2 = cfg.lt == Lt::Lf && path == "fast" && has_crlf_aware_look && terminated && cont.last() == Some(&b'\r') && follows_ctx;
-                // --- F24 (same class, any terminator), Unicode word look at a line that starts with UTF-8 continuation bytes.
-                // Mechanism: fast path, the pattern has `\b` / `\B` / -w, the line is not the first one and its
-                // content starts with 1–3 continuation bytes (decode_last walks back over them onto the previous
-                // line's terminator in the buffer, onto the start of the haystack on the slice), and `follows_ctx`.
-                let cont_bytes = cont.iter().take_while(|&&x| (0x80..=0xBF).contains(&x)).count();
-                let f24 = path == "fast" && has_unicode_word_look && idx > 0 && (1..=3).contains(&cont_bytes) && follows_ctx;
+                // The former classes F1 (`fastpath-matcher-not-linesafe-crlf`: empty match between `\r` and `\n`) and F2 / F24
+                // (`fastpath-matcher-not-linesafe`: CRLF-aware anchor under an LF terminator; Unicode word look at a line that
+                // starts with continuation bytes) were repaired in /repo 4165f41 (the fast searcher confirms such matches on the
+                // line; CRLF-aware anchors without crlf take the slow searcher): a deviation of that kind is unclassified now.
                 let cl = if crosses_terminator {
                     ""
                 } else if f18 {
                     "crlf-cr-unmatchable"
-                } else if f1 {
-                    "fastpath-matcher-not-linesafe-crlf"
-                } else if f2 || f24 {
-                    "fastpath-matcher-not-linesafe"
                 } else {
                     ""
                 };
@@ -914,17 +889,7 @@ fn run_case(line: &str, drv: &mut Driver, rep: &mut Report) {
     }
     // the coarse predicates the classes used to be decided by (kept as counters only)
     let cr_in_content = lines.iter().any(|l| content(l, cfg.lt).contains(&b'\r'));
-    let coarse = if cfg.lt == Lt::Crlf && cr_in_content && bits_m != bits_r {
-        "crlf-cr-unmatchable"
-    } else if path == "fast" && safe == "0" && ctx_dependent {
-        if cfg.lt == Lt::Crlf {
-            "fastpath-matcher-not-linesafe-crlf"
-        } else {
-            "fastpath-matcher-not-linesafe"
-        }
-    } else {
-        ""
-    };
+    let coarse = if cfg.lt == Lt::Crlf && cr_in_content && bits_m != bits_r { "crlf-cr-unmatchable" } else { "" };
     // with stop_on_nonmatch a first deviation moves the point where the search stops, so every later difference is its
     // consequence: only the FIRST deviating line has to show the mechanism then
     if cfg.son && line_classes.len() > 1 {
